@@ -47,7 +47,8 @@ def boxcar_filter(time_series, lb=0, ub=0.5, n_iterations=2):
 
     #If the time_series is a 1-d, we add a dimension, so that we can iterate
     #over 2-d inputs:
-    if len(time_series.shape) == 1:
+    one_d = len(time_series.shape) == 1
+    if one_d:
         time_series = np.array([time_series])
     else:
         # the rows are overwritten below: work on a copy, not on the caller's
@@ -100,4 +101,5 @@ def boxcar_filter(time_series, lb=0, ub=0.5, n_iterations=2):
             #make sure that the mean of the signal (in % signal change) is
             #close to 0
 
-    return time_series.squeeze()
+    # Give back the shape that came in (only a 1-d input was wrapped):
+    return time_series[0] if one_d else time_series
